@@ -786,27 +786,37 @@ def check_shared(pos_index, share_left, share_right):
     return v
 
 
+UNKNOWN_VALUES = ['x', None, '', 0, False, b'', [], {}, 1.5]
+
+
 def check_unknown(sp, ctor, name):
+    """An attribute name the section does not have is rejected whatever
+    value comes with it (a word, None, empty / falsy values of every
+    type)."""
     v = []
-    tree = build_tree(sp)
-    before = snap(tree)
-    try:
-        if ctor == 'diffx':
-            DiffX(**{name: 'x'})
-        elif ctor == 'change':
-            tree.add_change(**{name: 'x'})
-        else:
-            if not tree.changes:
-                return []
-            tree.changes[-1].add_file(**{name: 'x'})
-        v.append(('unknown-attribute-accepted:%s:%s' % (ctor, name),
-                  '%s(%s=...) accepted' % (ctor, name)))
-    except Exception:
-        pass            # rejected (the statement does not fix the type)
-    if freeze(snap(tree)) != freeze(before):
-        v.append(('rejected-constructor-changed-tree:%s' % ctor,
-                  '%s(%s=...) raised but the tree changed (a change/file was '
-                  'appended?)' % (ctor, name)))
+    for val in UNKNOWN_VALUES:
+        tree = build_tree(sp)
+        before = snap(tree)
+        vn = type(val).__name__ if val != 'x' else 'str'
+        try:
+            if ctor == 'diffx':
+                DiffX(**{name: copy.deepcopy(val)})
+            elif ctor == 'change':
+                tree.add_change(**{name: copy.deepcopy(val)})
+            else:
+                if not tree.changes:
+                    return []
+                tree.changes[-1].add_file(**{name: copy.deepcopy(val)})
+            v.append(('unknown-attribute-accepted:%s:%s%s'
+                      % (ctor, name, '' if val == 'x' and val is not False
+                         else ':value-' + vn),
+                      '%s(%s=%r) accepted' % (ctor, name, val)))
+        except Exception:
+            pass            # rejected (the statement does not fix the type)
+        if freeze(snap(tree)) != freeze(before):
+            v.append(('rejected-constructor-changed-tree:%s' % ctor,
+                      '%s(%s=%r) changed the tree (a change/file was '
+                      'appended?)' % (ctor, name, val)))
     return v
 
 
